@@ -60,6 +60,12 @@ REG = {
             "on an independently rebuilt instance, through DataLoaders with 0/2/3 workers and through every request form (item "
             "alone / jointly / either order) must equal it; separate facet: different indices draw different streams",
             "DESIGN.md §3 C08", TRUST + "; real worker processes are sampled, not scheduled"),
+    "C09": ("exploration", "Hypothesis-generated dataset stacks; simulated workers + generic object-graph walk over every reachable numpy Generator; real DataLoader workers as cross-check",
+            "stacks of transform / multi-view / semseg / MUGS / BYOL wrappers, KDImageFolder, roots with registered collators (incl. "
+            "I-JEPA), subsets, concats, ModeWrapper and the interleaved scheduler's dataset; after the worker-init hook every "
+            "reachable generator must differ between two worker seeds, no state may occur in both workers, equal seeds reproduce; a "
+            "second facet runs real 2-worker DataLoaders and compares per-generator digests taken inside the workers",
+            "DESIGN.md §3 C09", TRUST + "; deepcopy models fork/pickle (validated by the real-worker facet)"),
     "C16": ("exploration", "Hypothesis-generated label layouts and wrapper arguments vs. coherence/range/purity/reproducibility predicates",
             "10 facets (one per label-rewriting wrapper): bulk accessor vs per-sample accessor, labels within getshape_class or -1, "
             "x/len/root labels untouched (roots returning a new list, their internal list, ndarray, tensor), equal labels under two "
